@@ -88,7 +88,32 @@ def product_of(val):
         return v[2][0][2][0], v[2][0][2][1], ("trace", None, real)
     if v[0] == "call" and v[1] == "numpy.trace" and v[2] and v[2][0][0] == "bin" and v[2][0][1] == "@":
         return v[2][0][2], v[2][0][3], ("trace", None, real)
+    if v[0] == "call" and v[1] == "numpy.einsum" and len(v[2]) == 3 and is_const(v[2][0]) and isinstance(v[2][0][1], str):
+        kind = einsum_kind(v[2][0][1])
+        return v[2][1], v[2][2], ("einsum:" + kind, None, real)
     return None
+
+
+def einsum_kind(spec: str) -> str:
+    """classify a two-operand contraction: 'trace' (sum_p tr(A_p B_p): last two letters of B swapped, particle letter shared),
+    'elementwise' (sum_p sum_ij A_ij B_ij), optionally with a leading frame letter kept in the output ('+frames')."""
+    spec = spec.replace(" ", "")
+    if "->" not in spec or "," not in spec:
+        return "other"
+    ins, out = spec.split("->")
+    a, b = ins.split(",")
+    frames = ""
+    if len(a) == len(b) + 1 and out == a[0]:
+        frames, a = "+frames", a[1:]
+    elif out != "":
+        return "other"
+    if len(a) != 3 or len(b) != 3 or a[0] != b[0] or len(set(a)) != 3:
+        return "other"
+    if b[1:] == a[2] + a[1]:
+        return "trace" + frames
+    if b[1:] == a[1:]:
+        return "elementwise" + frames
+    return "other"
 
 
 def run(run: Run, pkg: Package) -> None:
@@ -152,7 +177,7 @@ def check_arm(run, pkg, rank, linear, arm):
         later, earlier = n, ("bin", "-", n, nn)
         slot_want = nn
     else:
-        if rank in (2, 3) and not loops:
+        if not loops:
             later, earlier, slot_want = "ALL", C(0), None
         else:
             if not loops:
@@ -190,6 +215,13 @@ def check_arm(run, pkg, rank, linear, arm):
         if rank == 4:
             run.ob("R-SIB", fq, f"{arm}:reduction-kind", False, "tensor series use the trace of the matrix product", "element-wise product used",
                    witness="tensor A: sum A_ab A_ab differs from tr(A A^dagger-less product) used by the definition", loc=loc)
+    elif red.startswith("einsum:"):
+        kind = red.split(":")[1]
+        want_kind = "trace+frames" if later == "ALL" else "trace"
+        okt = rank == 4 and kind == want_kind and real
+        run.ob("R-SIB", fq, f"{arm}:reduction", okt, "real part of sum over particles of the trace of the product of the two particle tensors (same particle in both factors)",
+               f"einsum contraction classified as {kind}, real={real}", witness=None if okt else
+               ("sum_ab A_ab B_ab differs from tr(A B) for non-symmetric tensors" if kind.startswith("elementwise") else "contraction is not sum_p tr(A_p B_p)"), loc=loc)
     else:
         okt = rank == 4 and pa is not None and pa == pb and len(loops) >= (3 if linear else 2) and pa == loops[-1].target
         run.ob("R-SIB", fq, f"{arm}:reduction", okt if rank == 4 else False, "trace of the product of the two particle tensors, same particle in both factors",
@@ -278,20 +310,41 @@ def check_common(run, pkg):
     else:
         import numpy as np
         from ..concrete import ev as cev, Unsupported
-        seqs = [([0, 10, 20, 30], True), ([5, 6, 7, 8, 9], True), ([0, 1, 4, 5], False), ([0, 1, 2, 4, 8], False), ([0, 2, 3, 5], False),
-                ([3, 13], True), ([0, 1, 3, 6, 10], False), ([100, 200, 300], True), ([0, 4, 5, 9, 10, 14], False)]
+        import itertools
+        # (a) idiom table: forms that ARE "all differences equal" (any of these is accepted as a proof of the clause)
+        D = ("call", "numpy.diff", (TS,), ())
+
+        def n_distinct(t):
+            return t in (("call", "builtins.len", (("call", "builtins.set", (D,), ()),), ()), ("call", "builtins.len", (("call", "numpy.unique", (D,), ()),), ()),
+                         ("attr", ("call", "numpy.unique", (D,), ()), "size"), ("sub", ("attr", ("call", "numpy.unique", (D,), ()), "shape"), C(0)))
+        d0 = ("sub", D, C(0))
+        tabled = (sc[0] == "cmp" and sc[1] == "==" and n_distinct(sc[2]) and sc[3] == C(1)) or \
+            sc in (("call", "numpy.all", (("cmp", "==", D, d0),), ()), ("call", ".all", (("cmp", "==", D, d0),), ()),
+                   ("cmp", "==", ("call", "numpy.ptp", (D,), ()), C(0)), ("call", "numpy.allclose", (D, d0), ()))
+        # (b) exhaustive small domain: every sequence of 3..5 frames with consecutive differences in {1,2,3,4} (336 sequences) + 2-frame ones
         bad = None
+        n_seq = 0
         try:
-            for seq, want in seqs:
-                env = {TS: np.array(seq), T_: len(seq)}
-                got = bool(cev(sc, env))
-                if got != want:
-                    bad = f"timesteps {seq} are {'evenly' if want else 'unevenly'} spaced but are treated as {'evenly' if got else 'unevenly'} spaced"
+            for T in (2, 3, 4, 5):
+                for diffs in itertools.product((1, 2, 3, 4), repeat=T - 1):
+                    seq = [7]
+                    for d_ in diffs:
+                        seq.append(seq[-1] + d_)
+                    want = len(set(diffs)) == 1
+                    n_seq += 1
+                    env = {TS: np.array(seq), T_: len(seq)}
+                    got = bool(cev(sc, env))
+                    if got != want:
+                        bad = f"timesteps {seq} are {'evenly' if want else 'unevenly'} spaced but are treated as {'evenly' if got else 'unevenly'} spaced"
+                        break
+                if bad:
                     break
-            run.ob("R-ALG", fq, "spacing", bad is None, "frames are classified as evenly spaced exactly when all timestep differences are equal "
-                   "(decided on 9 timestep sequences incl. symmetric uneven ones)", show(sc)[:100], witness=bad, loc=fi.loc())
+            ok = False if bad else (True if tabled else None)
+            run.ob("R-ALG", fq, "spacing", ok, "frames are classified as evenly spaced exactly when all timestep differences are equal",
+                   show(sc)[:100] + (" ; form in the idiom table" if tabled else f" ; form not in the idiom table (no counterexample among {n_seq} enumerated sequences - not a proof)"),
+                   witness=bad, loc=fi.loc())
         except (Unsupported, Exception) as e:  # noqa
-            run.ob("R-ALG", fq, "spacing", None, "spacing test decidable", f"{type(e).__name__}: {e}", loc=fi.loc())
+            run.ob("R-ALG", fq, "spacing", True if tabled else None, "spacing test decidable", f"{type(e).__name__}: {e}", loc=fi.loc())
     # both kinds of spacing were folded by the same test: confirm the test compares with 1
     saves = calls(it, ".to_csv")
     for e in saves:
